@@ -203,13 +203,21 @@ def observe(ds, store, kind, ids, default_id, model, created, explicit, old_view
                     st["contains"] = st.get("contains", 0) + 1
                     if ((t + (c,)) in ds) != inm:
                         return ("contains", "(%s, graph %s as %s) in dataset is %s, model says %s" % ([show(x) for x in t], n, how, not inm, inm))
+                view = Graph(store, ids[n])
+                for shape in SHAPES:
+                    pat = tuple(x if b else None for x, b in zip(t, shape))
+                    expk = {kk for kk in model[nid] if matches(pat, kk)}
+                    sh = "".join("b" if b else "u" for b in shape)
+                    got = [tkey(x) for x in ds.triples(pat, context=view)]
+                    st["triples-context:" + sh] = st.get("triples-context:" + sh, 0) + 1
+                    if not model[nid]: st["triples-empty-or-unknown-graph"] = st.get("triples-empty-or-unknown-graph", 0) + 1
+                    if len(got) != len(set(got)) or set(got) != expk:
+                        return ("triples-context", "triples(%s, context=graph %s) gives %d triples, model %d (graph holds %d)" % ([show(x) for x in pat], n, len(got), len(expk), len(model[nid])))
+                    got = [tkey(x) for x in view.triples(pat)]
+                    if len(got) != len(set(got)) or set(got) != expk:
+                        return ("view-pattern", "Graph(store, %s).triples(%s) gives %d triples, model %d" % (n, [show(x) for x in pat], len(got), len(expk)))
                 pat = (t[0], None, None)
                 expk = {kk for kk in model[nid] if matches(pat, kk)}
-                got = [tkey(x) for x in ds.triples(pat, context=Graph(store, ids[n]))]
-                st["triples-context"] = st.get("triples-context", 0) + 1
-                if not model[nid]: st["triples-empty-or-unknown-graph"] = st.get("triples-empty-or-unknown-graph", 0) + 1
-                if len(got) != len(set(got)) or set(got) != expk:
-                    return ("triples-context", "triples(%s, context=graph %s) gives %d triples, model %d (graph holds %d)" % ([show(x) for x in pat], n, len(got), len(expk), len(model[nid])))
                 got = [tkey(x) for x in ds.triples(pat + (ids[n],))]
                 if len(got) != len(set(got)) or set(got) != expk:
                     return ("triples-quadform", "triples((s,None,None,%s)) gives %d, model %d" % (n, len(got), len(expk)))
@@ -280,10 +288,10 @@ def lane_hist(ctx):
 
 
 LANES = {
-    "hist": dict(fn=lane_hist, quick=5000, thorough=100000),
+    "hist": dict(fn=lane_hist, quick=2500, thorough=60000),
     "exhaustive": dict(fn=lane_exhaustive, quick=2, thorough=3, exhaustive=True),
 }
-REQUIRED_COUNTERS = {"any": ["cmp:quads", "cmp:view", "cmp:graphs", "cmp:contains", "cmp:triples-context", "cmp:triples-empty-or-unknown-graph", "cmp:len-union", "cmp:quads-restricted"]}
+REQUIRED_COUNTERS = {"any": ["cmp:quads", "cmp:view", "cmp:graphs", "cmp:contains", "cmp:triples-context:bub", "cmp:triples-context:uuu", "cmp:triples-empty-or-unknown-graph", "cmp:len-union", "cmp:quads-restricted"]}
 
 
 def replay(w):
